@@ -70,7 +70,7 @@ P = {
  "C03": dict(
   tech="no-panic / termination obligations (Kani's implicit panic, bounds, overflow and unwinding assertions) on every ingress entry point driven with arbitrary bytes or byte templates: process_ip/process_ethernet/process_ieee802154-level harnesses, all wire parsers (shared with C07), DNS/DHCP socket process(), 6LoWPAN decompression and reassembly, tcp::Socket::process from arbitrary invariant states; an echo request answered after a fragment history",
   text="Per ingress path, decided by the solver for all inputs within the bound: IPv4 and IPv6 packets with every header byte free (raw-IP medium, one socket), Ethernet frames with free header, every checked wire view and Repr::parse on arbitrary bytes up to the per-type bound (C07's harnesses), DNS responses of 25 record layouts and free name bytes, DHCP messages of ten layouts, 6LoWPAN IPHC/NHC prefixes with free bytes and FRAG1/FRAGN headers with any size/offset/addressing, IPv4 reassembly with offsets beyond the buffer, TCP segments in any synchronized state: no panic, no arithmetic overflow, no out-of-bounds access, every loop terminates within its unwinding bound; after two symbolic fragments an echo request is still answered.",
-  note="Decomposed per entry point and per single frame from arbitrary (invariant) state rather than over whole frame sequences; Interface::poll's loop over sockets is exercised with one socket. Frame lengths are bounded per harness (20-96 bytes), not the 1500-byte MTU. Several remotely triggerable panics found this way were fixed (known_findings.json).",
+  note="Decomposed per entry point and per single frame from arbitrary (invariant) state rather than over whole frame sequences; Interface::poll's loop over sockets is exercised with one socket. Frame lengths are bounded per harness (20-96 bytes), not the 1500-byte MTU. Interface-level free-byte harnesses use a concrete IP header (to an own address, any source) and free octets above it, one harness per protocol / next-header value; a fully free IP header and InterfaceInner::process_hopbyhop (IPv6 hop-by-hop options at the interface level) did not fit the solver budget and are covered at the wire level only (C07's views). Several remotely triggerable panics found this way were fixed (known_findings.json).",
   ref="DESIGN.md 5/C03, 14"),
  "C06": dict(
   tech="emit-then-parse and parse-then-emit round-trip harnesses per Repr type and per concrete shape with every field value symbolic, emitting into a zeroed and into a garbage buffer and comparing them at a symbolic index",
